@@ -58,6 +58,8 @@ def _gen_lockstep(rng, seed):
         "mode": mode,
         "style": rng.choice(["frac", "frac", "decimal", "minimal", "minimal"]),
         "explicit_last": rng.random() < 0.5,
+        # the parser option that turns probabilistic choices into a drawn index plus branches (honoured by --simulate)
+        "transform_categoricals": rng.random() < 0.15,
     }
 
 
@@ -302,6 +304,7 @@ def summarize(results, tier):
                     probes[k] += v
             draws += r.get("draws", 0)
             probes["boundary_seeking_resolutions"] += r.get("n_boundary", 0)
+            probes["index_draws_of_expanded_choices"] += r.get("index_draws", 0)
             if r.get("draws", 0) >= 1:
                 paths.add((r.get("trace_sig"), r.get("path_sig")))
             traces.add(r.get("trace_sig"))
